@@ -201,6 +201,39 @@ def close_during_retry_wait():
     return None if all(isinstance(v, dict) for v in r.values()) and r else {'scenario': 'close during retry wait', 'observed': r}
 
 
+def close_during_callback():
+    r = run_script('''
+    async def main():
+        enc = IO.NMEA2000Encoder()
+        out = {}
+        for cls in (IO.EByteNmea2000Gateway,):
+            c = cls('h', 1)
+            log = []
+            async def rc(m, log=log):
+                log.append(('enter', m.source)); await asyncio.sleep(0.3); log.append(('leave', m.source))
+            c.set_receive_callback(rc)
+            pk = b''.join(enc.encode_ebyte(heading(s))[0] for s in (31, 32))
+            c.reader = FakeReader([pk], eof=False); c.writer = FakeWriter([]); c._state = State.CONNECTED
+            async def pump(c=c):
+                while True: await c._receive_impl()
+            t = asyncio.create_task(pump())
+            await asyncio.sleep(0.1)           # the callback for the first message is suspended now
+            t.cancel()
+            await c.close()
+            n_at_close = len(log)
+            await asyncio.sleep(0.6)
+            pending = [x for x in asyncio.all_tasks() if x is not asyncio.current_task() and not x.done()]
+            out[cls.__name__] = {'log_when_close_returned': log[:n_at_close], 'log_later': log[n_at_close:], 'tasks_still_pending': len(pending)}
+        print('RESULT ' + json.dumps(out))
+    asyncio.run(main())
+    ''', timeout=30)
+    for k, v in r.items():
+        if isinstance(v, dict) and (v.get('log_later') or v.get('tasks_still_pending')):
+            return {'scenario': 'close() while the receive callback is suspended at an await', 'client': k, 'observed': v,
+                    'expected': 'nothing of the receive callback runs after close() has returned; no task is left behind'}
+    return None if all(isinstance(v, dict) for v in r.values()) and r else {'scenario': 'close during callback', 'observed': r}
+
+
 def fault_while_closing():
     r = run_script('''
     class GatedReader:
@@ -721,6 +754,40 @@ def send_after_fault():
     return None
 
 
+def two_write_faults_in_a_row():
+    r = run_script('''
+    async def main():
+        c = IO.EByteNmea2000Gateway('h', 1)
+        trace = []
+        async def scb(s): trace.append(s.name)
+        c.set_status_callback(scb)
+        links = []
+        async def fake_connect_impl():
+            log = []
+            links.append(log)
+            # the second link dies at its first write as well; the third one works
+            c.reader = FakeReader([], eof=False); c.writer = FakeWriter(log, fail_after=0 if len(links) == 1 else None)
+        c._connect_impl = fake_connect_impl
+        c.writer = FakeWriter([], fail_after=0); c.reader = FakeReader([], eof=False); c._state = State.CONNECTED
+        async def wait_connected():
+            for _ in range(300):
+                await asyncio.sleep(0.01)
+                if c.state == State.CONNECTED: return
+        await c.send(heading(1)); await wait_connected()        # link 0 fails -> DISCONNECTED -> link 1
+        await c.send(heading(2)); await wait_connected()        # link 1 fails at once -> DISCONNECTED -> link 2
+        await c.send(heading(3))
+        await asyncio.sleep(0.1)
+        st = c.state.name
+        await c.close()
+        print('RESULT ' + json.dumps({'links_opened': len(links), 'state': st, 'trace': trace, 'packets_on_last_link': len(links[-1]) if links else 0}))
+    asyncio.run(main())
+    ''', timeout=40)
+    if r.get('links_opened') != 2 or r.get('packets_on_last_link') != 1 or r.get('state') != 'CONNECTED':
+        return {'scenario': 'a write fails, the client reconnects, the first write on the new link fails as well (within a second), the gateway then accepts a third connection',
+                'observed': r, 'expected': 'each failing write leads to DISCONNECTED and a reconnection: two new links are opened and the third message is written on the last one'}
+    return None
+
+
 def read_fails_with_value_error():
     r = run_script('''
     class OverlongLineReader:
@@ -785,10 +852,10 @@ def callback_window():
 
 
 BATTERY = {
-    'C19': {'concurrent-send': [concurrent_send], 'unsendable': [unsendable], 'stale-writer': [stale_writer], 'send-after-fault': [send_after_fault], None: [concurrent_send, unsendable, stale_writer, send_after_fault]},
+    'C19': {'concurrent-send': [concurrent_send], 'unsendable': [unsendable], 'stale-writer': [stale_writer], 'send-after-fault': [send_after_fault, two_write_faults_in_a_row], None: [concurrent_send, unsendable, stale_writer, send_after_fault, two_write_faults_in_a_row]},
     'C14': {'close-during-connect': [close_during_connect, close_during_retry_wait], 'close-sets-closed-late': [transport_opens_during_close], 'status-trace': [status_trace], 'status-callback-raises': [status_trace],
             'close-during-_receive_loop': [fault_while_closing], 'close-during-send': [fault_while_closing],
-            None: [close_during_connect, fault_while_closing, status_trace, transport_opens_during_close, close_during_retry_wait]},
+            None: [close_during_connect, fault_while_closing, status_trace, transport_opens_during_close, close_during_retry_wait, close_during_callback]},
     'C13': {'eof': [eof_no_stall], 'reconnect-after-reset': [reconnect_after_reset], 'reconnect-mid-packet': [reconnect_mid_packet], 'fault-before-connected-reported': [fault_before_connected_reported],
             None: [eof_no_stall, close_during_connect, reconnect_after_reset, reconnect_mid_packet, read_fails_with_value_error, fault_before_connected_reported]},
     'C12': {'reconnect-mid-packet': [reconnect_mid_packet], 'callback-window': [callback_window], 'segmented-reads': [delivery_all_clients], None: [delivery_order, delivery_all_clients, serial_split_marker, reconnect_mid_packet, callback_window]},
